@@ -292,6 +292,18 @@ def full_report(chk):
                 os.makedirs(d)
                 nat = chk.native.run([['fullreport', sp[0], sp[1], sp[2], d], ['report', 'vul', sp[0]], ['report', 'opt', sp[1]], ['report', 'qa', sp[2]]])
                 if all(x[0] == 'OK' for x in nat) and unhex(nat[0][1]) == ''.join(unhex(x[1]) + '\n\n' for x, on in zip(nat[1:], mask) if on):
+                    # the file is the concatenation of what the category generators return: if the engine objects all the same, the fault
+                    # lies in a category generator -- decided on its own compiled output before anything is called broken
+                    wrong_part = None
+                    for (cat_, on_), x_ in zip(zip(('vul', 'opt', 'qa'), mask), nat[1:]):
+                        if on_:
+                            okc, whyc = concrete_accept(unhex(x_[1]), cat_, fs[cat_].concretize(mm), secs[cat_][0], secs[cat_][1], HEADINGS if cat_ == 'vul' else None)
+                            if not okc:
+                                wrong_part = (cat_, whyc)
+                    if wrong_part is not None:
+                        chk.violation('%s:report:%s' % (wrong_part[0], role_of(wrong_part[1])), '%s report for findings %r: %s' % (wrong_part[0], fs[wrong_part[0]].concretize(mm), wrong_part[1]),
+                                      {'job': 'report', 'category': wrong_part[0], 'findings': sp[('vul', 'opt', 'qa').index(wrong_part[0])], 'why': wrong_part[1]})
+                        continue
                     chk.broken('generate_report with categories %r: the engine finds a wrong composition, the compiled code writes exactly the expected parts' % (mask3,))
                 chk.violation('full:report:category-parts', 'generate_report with categories (vul, opt, qa) = %r (True: findings, False: no entry, empty: only file entries without lines, mixed: an entry without lines next to one with a line, nofiles: a pattern without file entries) does not consist of exactly the parts of the categories that have findings' % (mask3,),
                               {'job': 'fullreport', 'categories': [str(x) for x in mask3], 'specs': sp, 'observed': unhex(nat[0][1])[:400] if nat[0][0] == 'OK' else nat[0]})
